@@ -63,7 +63,9 @@ let () =
                let tag = (if agree then "" else "MISMATCH") ^
                          (if (not agree) && (not holds) then "+" else "") ^
                          (if holds then "" else "PROPFAIL") in
-               Printf.printf "%s %s %s\n" id tag (show_ints m)
+               let w = if holds then "" else
+                   (try " why=" ^ Z.to_string (z_of_coq ((List.assoc prop Table.why) i o)) with Not_found -> "") in
+               Printf.printf "%s %s %s%s\n" id tag (show_ints m) w
              end
          | _ -> (incr bad; Printf.printf "? MALFORMED %s\n" line)
        end
